@@ -13,6 +13,8 @@ def c07(ctx, res):
     ctx.gen_replay(res, "vfpw", "MC_Wide.tla", "MC_Wide_vfp.cfg")
     # four levels deep: every path over the key chain with plain / indexed / wildcard steps (several look-ahead groups)
     ctx.gen_replay(res, "vfpw", "MC_Deep.tla", "MC_Deep.cfg")
+    # sessions: SetArraySize histories interleaved with queries on a list wider than the initial capacity
+    ctx.gen_replay(res, "mxj", "Mxj.tla", "Mxj_vfp.cfg", procs=4)
     res.assumptions += ["results of wildcard paths are compared as bags (Go map iteration order)",
                         "tagged value codec and token dictionary of the harness"]
 
@@ -45,6 +47,7 @@ def c10(ctx, res):
     ctx.gen_replay(res, "upd", "MC_C10.tla", cfg)
     # sessions: new-value STRINGS ("k<sep>v") under every history of SetFieldSeparator calls, separators of one and two characters
     ctx.gen_replay(res, "mxj", "Mxj.tla", "Mxj_upd.cfg", procs=4)
+    ctx.gen_replay(res, "mxj", "Mxj.tla", "Mxj_updk.cfg", procs=4)     # ... and sub-key strings of UpdateValuesForPath
     res.assumptions += ["the frame theorem is stated for a fresh new value (occurs nowhere in the Map), so that every replacement is visible to it; the replay also uses a new value equal to values already present (count and post-state from the operational UpdateOp)"]
 
 
@@ -52,6 +55,8 @@ def c11(ctx, res):
     path_trace(ctx, res)
     cfg = "MC_C11_quick.cfg" if ctx.quick else "MC_C11_thorough.cfg"
     ctx.gen_replay(res, "mut", "MC_C11.tla", cfg)
+    # sessions: the key-folding registers are the decoders'; RenameKey takes the new name literally
+    ctx.gen_replay(res, "mxj", "Mxj.tla", "Mxj_rename.cfg", procs=4)
     res.assumptions += ["SetValueForPath whose parent is reached through a list is outside the property's domain: only checked for panics"]
 
 
@@ -84,6 +89,8 @@ def c13(ctx, res):
     ctx.gen_replay(res, "stream", "MC_Stream.tla", "MC_Stream_cut_%s.cfg" % t, workers=8)
     ctx.gen_replay(res, "stream", "MC_Stream.tla", "MC_Stream_jsoncut_quick.cfg", workers=8)
     ctx.gen_replay(res, "file", "MC_Stream.tla", "MC_Stream_files.cfg", workers=4)
+    # sessions: JsonUseNumber histories; the reader form decodes like NewMapJson
+    ctx.gen_replay(res, "mxj", "Mxj.tla", "Mxj_json.cfg", procs=4)
     # the adaptor's no-loss / no-duplication invariant for a stream of ARBITRARY length (Apalache, inductive)
     ctx.apalache_inductive(res, "AdaptorInd.tla")
     res.assumptions += ["AdaptorInd.tla restates the adaptor actions of MxjStream over integers (delivered = count of deliveries) so that Apalache can discharge the invariant for unbounded stream length; it is not bound to the code separately",
@@ -132,6 +139,8 @@ def c02(ctx, res):
     t = "quick" if ctx.quick else "thorough"
     for fam in ("names", "attrs", "vals", "vals1"):
         ctx.gen_replay(res, "enc", "MC_C02.tla", "MC_C02_%s_%s.cfg" % (fam, t), procs=16)
+    # sessions: the two escaping switches (set / clear / toggle) with decode, encode, sequence round trip and BeautifyXml in between
+    ctx.gen_replay(res, "mxj", "Mxj.tla", "Mxj_esc.cfg", procs=8)
     xml_trace(ctx, res, "rt")
     res.assumptions += ["encoding/xml as the definition of well-formedness and as tokenizer of the indented output",
                         "indented output compared with the compact one up to white space that the decoder trims (under keep-spaces: tabs/newlines only; indent string is a tab)",
@@ -173,6 +182,8 @@ def c05(ctx, res):
 def c06(ctx, res):
     ctx.gen_replay(res, "json", "MC_C06.tla", "MC_C06_quick.cfg" if ctx.quick else "MC_C06_thorough.cfg")
     ctx.gen_replay(res, "jsonin", "MC_C06.tla", "MC_C06_accept.cfg", workers=4)
+    # sessions: JsonUseNumber histories with NewMapJson / NewMapJsonReader and Copy in between (no call changes the register)
+    ctx.gen_replay(res, "mxj", "Mxj.tla", "Mxj_json.cfg", procs=4)
     res.assumptions += ["encoding/json is the oracle for validity and for the value of the first JSON value of an input",
                         "placeholders ^ (U+0001) and $ (newline) of the specification's alphabet are substituted on the Go side",
                         "JsonUseNumber: a fixed catalogue of numerals compared textually"]
@@ -191,6 +202,7 @@ def c14(ctx, res):
 
 def c16(ctx, res):
     ctx.gen_replay(res, "det", "MC_C16.tla", "MC_C16_quick.cfg" if ctx.quick else "MC_C16_thorough.cfg", procs=16)
+    ctx.gen_replay(res, "det", "MC_C16.tla", "MC_C16_deep.cfg", procs=4)      # content ten levels deep
     res.assumptions += ["hash iteration orders are varied through insertion order and map capacity (0, 1, 16, 200) and three repetitions; Go randomises map iteration per range statement anyway",
                         "indented XML compared with the compact form up to inter-element white space; indented JSON through json.Compact"]
 
